@@ -723,6 +723,10 @@ func (ex *Exec) finishCall(st *State, pc *preparedCall, k func(*State, []Val)) {
 		ex.callClosure(st, pc.clo, pc.args, k)
 		return
 	}
+	if sel, ok := unparen(call.Fun).(*ast.SelectorExpr); ok && pc.funVal != nil && ex.pureCallbackField(sel.Sel.Name) {
+		k(st, ex.callbackApp(*pc.funVal, sel.Sel.Name, pc.sig, pc.args))
+		return
+	}
 	ex.unknownCall(st, pc, "func value "+nodeString(ex.fset, call.Fun), k)
 }
 
